@@ -121,6 +121,10 @@ func (p *FunctionBuilder) CreateFunction(m *bmodel.MethodEntry) (*gmodel.Functio
 			return nil, logger.Errorf("%v: the name %v would be declared twice in the function", p.fset.Position(m.Method.Pos()), v.Name)
 		}
 		names[v.Name] = true
+		if _, ok := p.imports.LookupPath(v.Name); ok {
+			// Inside the function the name would hide the package: qualified types, converters and hooks of it could not be written.
+			return nil, logger.Errorf("%v: the name %v hides the imported package of that name in the function; rename it", p.fset.Position(m.Method.Pos()), v.Name)
+		}
 	}
 
 	var assignments []gmodel.Assignment
